@@ -45,6 +45,8 @@ func main() {
 		os.Exit(cmdOptable(os.Args[2:]))
 	case "hammer":
 		os.Exit(cmdHammer(os.Args[2:]))
+	case "coldstart":
+		os.Exit(cmdColdstart(os.Args[2:]))
 	default:
 		fmt.Fprintln(os.Stderr, "unknown subcommand", os.Args[1])
 		os.Exit(2)
